@@ -70,6 +70,8 @@ def gen_chart(r: random.Random, game: str, hi: int = 8, keys: int | None = None,
     lists["bpms"] = bpms
     if "svs" in slots:
         lists["svs"] = gen_rows(r, slots["svs"], r.choice([0, 0, 1, 2, 3]), keys, seen, sort=srt)
+        if game == "qua" and lists["svs"] and r.random() < 0.25:
+            r.choice(lists["svs"])["multiplier"] = 0.0  # a Quaver "stop" SV (osu's domain excludes 0, Quaver's does not)
     if game == "sm":
         for k in ("rolls", "mines", "lifts", "fakes", "keysounds"):
             if r.random() < 0.25:
@@ -1469,6 +1471,19 @@ class GenC09(FileGen):
             fmt = G.gen_bms_fmt(self.d, self.s.knobs)
         else:
             doc = G.gen_ojn_doc(self.d, 4, pipeline=dict(on=True))
+        if tg == "bms":
+            # BMS stores shift_jis: text the target cannot hold is outside what C09 speaks of (timeline, objects, columns)
+            asc = lambda: self.d.choice(ASCII_TITLES)  # noqa: E731
+            if sg == "osu":
+                for f in ("title", "artist", "creator", "version"):
+                    doc["meta"][f] = asc()
+            elif sg == "qua":
+                for f in ("Title", "Artist", "Creator", "DifficultyName"):
+                    doc["meta"][f] = asc()
+            elif sg == "sm":
+                for f in ("TITLE", "ARTIST", "CREDIT"):
+                    if f in doc["meta"]:
+                        doc["meta"][f] = asc()
         path = self.new_path(sg)
         src = self.new_h()
         rd = self.io_read_op(sg, path, out=src)
